@@ -62,6 +62,9 @@ class PathWorld:
         self.counter = 0
         os.makedirs(root, exist_ok=True)
         self.paths = {i: os.path.join(root, f"p{i}_{seed}.tdf") for i in range(1, NP + 1)}
+        if seed % 2:
+            # the third path is the first one without its extension: three different paths all the same
+            self.paths[3] = self.paths[1][:-4]
 
     def sha_id(self, sha):
         if sha not in self.shas:
